@@ -1509,6 +1509,23 @@ class Interp(object):
         v.esc = ('interval', g, r, n, 0)
         return VNone
 
+    def link_fields(self, d):
+        if d.kind != 'dict' or d.esc:
+            return None
+        f = {k.s: v for k, v in d.pairs if k.kind == 'str'}
+        if set(f) == {'source', 'target', 'time'} and f['source'].kind == 'node' and f['target'].kind == 'node' and f['time'].kind == 'int':
+            return f['source'].z, f['target'].z, f['time'].z
+        return None
+
+    def m_linkbag_append(self, bag, argv, kwv):
+        lf = self.link_fields(argv[0])
+        if lf is None:
+            raise Undecided('append of something other than a link dict {source, target, time}')
+        a, b, q = lf
+        y = bag.cnt
+        bag.cnt = z3.Store(y, a, z3.Store(y[a], b, z3.Store(y[a][b], q, y[a][b][q] + 1)))
+        return VNone
+
     def m_optbag_append(self, bag, argv, kwv):
         p = argv[0]
         if p.kind != 'path' or p.pos is None:
